@@ -26,6 +26,7 @@ def LogFree : Prog → Prop
   | .try_ body => LogFree body
   | .raise _ => True
   | .eq _ _ _ => True
+  | .verdict _ _ _ => True
 
 /-- Programs in which every change of the log level is made by a `with` block (of `log_level`
 or of `configuration`), at any depth and in any interleaving with decorated calls. -/
@@ -41,6 +42,24 @@ def Balanced : Prog → Prop
   | .try_ body => Balanced body
   | .raise _ => True
   | .eq _ _ _ => True
+  | .verdict _ _ _ => True
+
+/-- Programs in which *every* change of *any* setting is made by a `with` block (setter or
+`configuration`, with any argument, valid or not), at any depth and in any interleaving with
+decorated calls, raises and try blocks; plain calls only read (`cfdm.atol()`). -/
+def Bracketed : Prog → Prop
+  | .skip => True
+  | .seq p q => Bracketed p ∧ Bracketed q
+  | .set op => op = .atol none ∨ op = .rtol none ∨ op = .log none
+  | .cfg c => c.a = none ∧ c.r = none ∧ c.l = none
+  | .withSet _ body => Bracketed body
+  | .withCfg _ body => Bracketed body
+  | .call _ body => Bracketed body
+  | .real _ _ _ => True
+  | .try_ body => Bracketed body
+  | .raise _ => True
+  | .eq _ _ _ => True
+  | .verdict _ _ _ => True
 
 /-! ### The hypothesis under which the decorator *as coded* (1.11.2.0) is call-scoped
 
@@ -83,6 +102,43 @@ def guarded (g : Level) : Option (Option Level) → Prog → Bool
   | c, .try_ body => guarded g c body
   | _, .raise _ => true
   | _, .eq _ _ _ => true
+  | _, .verdict _ _ _ => true
+
+/-! ### The hypothesis under which the decorator *after fixes/C20-verbose-scope.patch* is call-scoped
+
+Only one of the three defect classes is left: an **outermost** call with `verbose` =
+0/False/"DISABLE" while the global level is DISABLE (the outermost exit is unchanged, and
+`test_decorators.py` pins that behaviour).  Invalid values and nested verbosities are unrestricted. -/
+
+/-- `verbose` resolves to 0 while the global level is DISABLE. -/
+def zeroUnderDisable (g : Level) (v : Verbose) : Bool :=
+  match v.resolve with
+  | .ok (some .DISABLE) => decide (g = .DISABLE)
+  | _ => false
+
+/-- Is this `verbose` outside the remaining defect class?  (`top`: the call is an outermost one.) -/
+def midOK (g : Level) (top : Bool) (v : Verbose) : Bool := !(top && zeroUnderDisable g v)
+
+/-- Decidable guard for the patched decorator: any tree of decorated calls (any depth, any
+`verbose` — invalid ones and arbitrary nested ones included), opaque cfdm functions, raises, try
+blocks, equality tests and tolerance settings / blocks (no log-level operation, as in `LogFree`)
+in which no *outermost* call has `verbose` = 0 under a global DISABLE. -/
+def guardedMid (g : Level) : Bool → Prog → Bool
+  | _, .skip => true
+  | t, .seq p q => guardedMid g t p && guardedMid g t q
+  | _, .set op => !op.touchesLog
+  | _, .cfg cf => decide (cf.l = none)
+  | t, .withSet op body => decide (op.key ≠ .log) && guardedMid g t body
+  | _, .withCfg _ _ => false
+  | t, .call v body => midOK g t v && guardedMid g false body
+  | t, .real v _ _ => midOK g t v
+  | t, .try_ body => guardedMid g t body
+  | _, .raise _ => true
+  | _, .eq _ _ _ => true
+  | _, .verdict _ _ _ => true
+
+/-- The context of `Inv`/`Post` that goes with the flag. -/
+def ctxOf (top : Bool) : Option (Option Level) := if top then none else some none
 
 /-! ### Vocabulary of the statements about the decorator as coded -/
 
